@@ -493,9 +493,12 @@ func (c *Class) source() string {
 	// final invocation), then the log is snapshot ("what has been evaluated by the time the helper
 	// returned"), then the function is invoked twice, each time with a fresh log:
 	//   p:<log before the first invocation>#<outcome of invocation 1>#<outcome of invocation 2>
+	// seqBranch (toerror): with a `(seq b…)` part the SAME function value is invoked once per entry, f reporting
+	// b in that call: s:<log before>#<outcome 1>#<outcome 2>… — state carried from call to call would show
+	seqBranch := ""
 	runFn := func(build string, vars []string, call, outcome string) {
 		run(build + "\tpre := join(Log, \"|\")\n\tinv := func() string {\n\t\tLog = nil\n\t\t" + assign(vars, call) +
-			"\n\t\treturn " + outcome + "\n\t}\n\to1 := inv()\n\to2 := inv()\n\treturn \"p:\" + pre + \"#\" + o1 + \"#\" + o2\n")
+			"\n\t\treturn " + outcome + "\n\t}\n" + seqBranch + "\to1 := inv()\n\to2 := inv()\n\treturn \"p:\" + pre + \"#\" + o1 + \"#\" + o2\n")
 	}
 	switch c.Kind {
 	case "curry", "flip", "apply", "uncurrycurry":
@@ -622,6 +625,7 @@ func (c *Class) source() string {
 		w("var F func(%s)%s = fImpl\n\n", goParams(c.Ps), c.resOf(c.Rs, "bool"))
 		w("func fImpl(%s)%s {\n\ta := %s\n\tlogStage(0, a)\n\treturn %s\n}\n", implParams(ts, 0), goResults(c.Rs, "bool"), obsList(ts, 0),
 			strings.Join(append(mkResults(c.Rs, c.tag("0")), "Ok"), ", "))
+		seqBranch = "\tif seq, ok := in[\"seq\"]; ok {\n\t\tout := \"s:\" + pre\n\t\tfor _, b := range seq {\n\t\t\tOk = b != 0\n\t\t\tout += \"#\" + inv()\n\t\t}\n\t\treturn out\n\t}\n"
 		runFn("\tOk = in[\"ok\"][0] != 0\n"+c.errArg("err")+"\tw := deriveToError(e, F)\n", append(rvars(len(c.Rs)), "err"),
 			fmt.Sprintf("w(%s)", strings.Join(mkArgs(ts, 0), ", ")), "outcomeE("+obsVars(c.Rs)+", err)")
 	default:
@@ -759,6 +763,17 @@ func (c *Class) Ops(rng *rand.Rand, cfg string, nargs int) []string {
 			args := wireInts("args", payloads(rng, ptys(c.Ps)))
 			add(args, "(ok 1)", wireInts("err", []int{i % 2}))
 			add(args, "(ok 0)", wireInts("err", []int{i % 2}))
+		}
+		// ONE derived function value, called two and three times with f succeeding / failing in every order
+		args := wireInts("args", payloads(rng, ptys(c.Ps)))
+		for n := 2; n <= 3; n++ {
+			for m := 0; m < 1<<n; m++ {
+				seq := make([]int, n)
+				for j := range seq {
+					seq[j] = m >> j & 1
+				}
+				add(args, "(ok 0)", wireInts("err", []int{m % 2}), wireInts("seq", seq))
+			}
 		}
 	}
 	return out
